@@ -33,6 +33,10 @@ def run(ck):
     ck.prove("IntIncInd", "CInit", "IndInv", "IndInv", 1)
     ck.prove("IntIncInd", "CInit", "IndInv", "Safety", 0)
     ck.prove("IntIncInd", "CInitBad", "IndInv", "IndInv", 1, must_fail=True)
+    # the three integer accessors on EVERY integer node of either store: exact when it fits, the nearest bound and the range error
+    # exactly when not; the test that reports INT32_MAX itself as out of range must fail
+    ck.prove("GetIntInd", "CInit", "Init", "Correct", 0)
+    ck.prove("GetIntInd", "CInitBad", "Init", "Correct", 0, must_fail=True)
     exe = vlib.build("san", vlib.harness_sources(), "vh")
     n = 30000 if thorough else 500
     tp = os.path.join(ck.dir, "v.ndjson")
